@@ -7,6 +7,8 @@ import "context"
 func init() {
 	vReg("H_C02_readRequest", H_C02_readRequest)
 	vReg("H_C02_readRequest_wide", H_C02_readRequest_wide)
+	vReg("H_C02_readRequest_2ctl", H_C02_readRequest_2ctl)
+	vReg("H_C02_readRequest_w3", H_C02_readRequest_w3)
 }
 
 const vC02Widths = "def=3;=4;1=9;2=1;2.*=4;1.1=2;1.7=3"
@@ -19,6 +21,10 @@ func vMux() *Mux {
 const vC02WidthsWide = "def=3;=4;1=9;2=2;2.*=4;1.1=2;1.7=3"
 
 func H_C02_readRequest_wide() { vC02(vC02WidthsWide) }
+
+// the two increments of the wide variant separately (each explored to completion)
+func H_C02_readRequest_2ctl() { vC02(vC02WidthsWide) } // two controls, control values re-decoded at width 2
+func H_C02_readRequest_w3()   { vC02(vC02Widths) }     // one control, control values re-decoded at width 3
 
 // Whatever well-framed tree the wire reader returns, reading and decoding a
 // request never panics (recovery is not credited: any panic is a violation).
